@@ -6,6 +6,7 @@ package main
 
 import (
 	"fmt"
+	"sort"
 	"go/constant"
 	"go/token"
 	"go/types"
@@ -58,8 +59,9 @@ func (t *bsetTable) lookup(v int64) (outcome, bool) {
 }
 
 type bsetEngine struct {
-	p     *Program
-	cache map[*ssa.Function]*bsetTable
+	lenient bool // ignore side effects and result arity: only panic / no-panic reachability is of interest
+	p       *Program
+	cache   map[*ssa.Function]*bsetTable
 	// symbol: optionally treat the result of this call instruction as the scalar variable
 	symbolCall func(c *ssa.Call) bool
 }
@@ -110,6 +112,7 @@ func (e *bsetEngine) domainFor(t types.Type) ([]int64, string) {
 						d = append(d, v)
 					}
 				}
+				sort.Slice(d, func(i, j int) bool { return d[i] < d[j] })
 				return d, "enum " + n.Obj().Name()
 			}
 		}
@@ -144,6 +147,22 @@ func (e *bsetEngine) Table(fn *ssa.Function) *bsetTable {
 	}
 	dom, _ := e.domainFor(param.Type())
 	e.run(t, fn, dom, func(v ssa.Value) bool { return v == param })
+	return t
+}
+
+// TableParam analyses fn as a function of one chosen scalar parameter (other parameters are opaque).
+func (e *bsetEngine) TableParam(fn *ssa.Function, param *ssa.Parameter) *bsetTable {
+	t := &bsetTable{fn: fn}
+	if fn == nil || fn.Blocks == nil || param == nil {
+		t.why = "no body"
+		return t
+	}
+	dom, _ := e.domainFor(param.Type())
+	if dom == nil {
+		t.why = "parameter has no finite domain"
+		return t
+	}
+	e.run(t, fn, dom, func(v ssa.Value) bool { return v == ssa.Value(param) })
 	return t
 }
 
@@ -205,11 +224,14 @@ func (st *evalState) walk() outcome {
 		for _, in := range b.Instrs {
 			switch x := in.(type) {
 			case *ssa.Store:
-				if !addrIsLocalAlloc(x.Addr) {
+				if !st.e.lenient && !addrIsLocalAlloc(x.Addr) {
 					st.why = "store to non-local memory in predicate"
 					return outcome{kind: oUndecided}
 				}
 			case *ssa.MapUpdate, *ssa.Send, *ssa.Go, *ssa.Defer, *ssa.RunDefers:
+				if st.e.lenient {
+					continue
+				}
 				st.why = fmt.Sprintf("side-effecting instruction %T in predicate", x)
 				return outcome{kind: oUndecided}
 			}
@@ -218,6 +240,9 @@ func (st *evalState) walk() outcome {
 		switch x := term.(type) {
 		case *ssa.Return:
 			if len(x.Results) != 1 {
+				if st.e.lenient {
+					return outcome{kind: oRet}
+				}
 				st.why = "not exactly one result"
 				return outcome{kind: oUndecided}
 			}
